@@ -1130,11 +1130,208 @@ func run40(h *hist) {
 	}
 	steps := 14 + h.rng.IntN(14)
 	for i := 0; i < steps && !v.abort; i++ {
+		if i > 1 && h.rng.IntN(16) == 0 {
+			v.reboot(pick(h.rng, v.clients))
+			continue
+		}
 		o := pick(h.rng, v.allOwners())
 		op := v.next(o)
 		if op == nil {
 			continue
 		}
 		v.runTracked(op, true)
+	}
+}
+
+// reboot plays a client restart (SETCLIENTID with a new verifier followed
+// by SETCLIENTID_CONFIRM) while an OPEN of the confirmed client record is
+// still being processed. SETCLIENTID_CONFIRM must answer NFS4ERR_DELAY
+// without touching any state, behave the same when it is sent again, and
+// be executed once the old request has finished.
+func (v *v40) reboot(c *client40) {
+	o := pick(v.rng, c.owners)
+	var op *op40
+	switch {
+	case !o.started:
+		op = v.genOpen(o, 1+v.rng.Uint32N(1<<30))
+	case !o.confirmed || (len(o.files) < 3 && v.rng.IntN(2) == 0):
+		op = v.genOpen(o, o.seq+1)
+	default:
+		op = &op40{kind: kOpenNoent, o: o, fname: "missing", access: nfsv4.OPEN4_SHARE_ACCESS_READ, seq: o.seq + 1, want: nfsv4.NFS4ERR_NOENT}
+	}
+	req := v.build(op)
+	g := &v.fs.gate
+	g.arm(gateOpenChild, op.fname)
+	defer g.disarm()
+	v.requests++
+	orig := v.srv.start(req, op.String(), true)
+	select {
+	case <-g.reached:
+	case <-orig.done:
+		v.desync(op.String()+" did not reach the file system", orig.res.Status)
+		return
+	case <-time.After(callGrace):
+		v.judgeStuck(orig, op.String(), "held-request-never-reached-gate", 3, time.Second)
+		v.abort = true
+		return
+	}
+	v.logf("%s held at gate; client c%d restarts", op, c.idx)
+	v.shape = append(v.shape, "reboot")
+	finished := false
+	finish := func() bool {
+		if finished {
+			return true
+		}
+		finished = true
+		g.open()
+		if !orig.wait(callGrace) {
+			v.judgeStuck(orig, op.String(), "released-request-never-returned", 3, time.Second)
+			v.abort = true
+			return false
+		}
+		st := orig.res.Status
+		v.logf("%s -> %s", op, statusName(st))
+		if st != op.want {
+			v.desync(op.String(), st)
+			return false
+		}
+		if !v.apply(op, orig.res) {
+			return false
+		}
+		o.last = retx{op: op, req: req, reply: orig.enc, status: st, present: true}
+		return true
+	}
+	defer finish()
+
+	var verifier [8]byte
+	for j := range verifier {
+		verifier[j] = byte(v.rng.Uint32())
+	}
+	p, ok := v.send(encodeArgs(compound(0, "setclientid", &nfsv4.NfsArgop4_OP_SETCLIENTID{Opsetclientid: nfsv4.Setclientid4args{
+		Client:        nfsv4.NfsClientId4{Verifier: verifier, Id: c.longID},
+		Callback:      nfsv4.CbClient4{CbProgram: 1, CbLocation: nfsv4.Clientaddr4{NaRNetid: "tcp", NaRAddr: "127.0.0.1.0.1"}},
+		CallbackIdent: 1,
+	}})), "SETCLIENTID (restart)")
+	if !ok {
+		return
+	}
+	r, is := p.res.Resarray[0].(*nfsv4.NfsResop4_OP_SETCLIENTID).Opsetclientid.(*nfsv4.Setclientid4res_NFS4_OK)
+	if !is {
+		v.desync("SETCLIENTID (restart)", p.res.Status)
+		return
+	}
+	newID := r.Resok4.Clientid
+	confirm := encodeArgs(compound(0, "setclientid_confirm", &nfsv4.NfsArgop4_OP_SETCLIENTID_CONFIRM{OpsetclientidConfirm: nfsv4.SetclientidConfirm4args{
+		Clientid: newID, SetclientidConfirm: r.Resok4.SetclientidConfirm,
+	}}))
+
+	before := v.fingerprint()
+	if v.abort {
+		return
+	}
+	first, ok := v.send(confirm, "SETCLIENTID_CONFIRM (restart, old record busy)")
+	if !ok {
+		return
+	}
+	after := v.fingerprint()
+	if v.abort {
+		return
+	}
+	v.logf("SETCLIENTID_CONFIRM c%d new verifier while OPEN is held -> %s", c.idx, statusName(first.res.Status))
+	if first.res.Status != nfsv4.NFS4ERR_DELAY {
+		v.desync("SETCLIENTID_CONFIRM while the old record is busy", first.res.Status)
+		return
+	}
+	v.sit("setclientid-confirm-delay-40")
+	if before != after {
+		v.violate("C19 setclientid-confirm-delay-side-effect v=4.0",
+			"SETCLIENTID_CONFIRM answered NFS4ERR_DELAY (old client record busy) changed observable state",
+			map[string]any{"before": before, "after": after})
+	}
+	if v.rng.IntN(3) != 0 {
+		d, ok := v.send(confirm, "RETRANSMIT SETCLIENTID_CONFIRM (old record still busy)")
+		if !ok {
+			return
+		}
+		v.dups++
+		again := v.fingerprint()
+		if v.abort {
+			return
+		}
+		v.logf("  retransmit(while-delayed) SETCLIENTID_CONFIRM -> %s", statusName(d.res.Status))
+		if !bytes.Equal(d.enc, first.enc) || again != after {
+			v.violate(fmt.Sprintf("C19 setclientid-confirm-delay-retransmission-differs v=4.0 got=%s", statusName(d.res.Status)),
+				fmt.Sprintf("retransmitted SETCLIENTID_CONFIRM while the old record is still busy: reply %s, state changed=%v", statusName(d.res.Status), again != after),
+				map[string]any{"before": after, "after": again})
+			if d.res.Status == nfsv4.NFS4_OK {
+				v.abort = true
+				return
+			}
+		}
+	}
+	if !finish() {
+		return
+	}
+	done := false
+	for try := 0; try < 3 && !done; try++ {
+		d, ok := v.send(confirm, "RETRANSMIT SETCLIENTID_CONFIRM (old record idle)")
+		if !ok {
+			return
+		}
+		v.dups++
+		v.logf("  retransmit(after-old-request-finished) SETCLIENTID_CONFIRM -> %s", statusName(d.res.Status))
+		v.sit("setclientid-confirm-delay-retransmit-after-40")
+		switch {
+		case d.res.Status == nfsv4.NFS4_OK:
+			done = true
+		case bytes.Equal(d.enc, first.enc):
+		default:
+			try = 3
+		}
+	}
+	if !done {
+		v.violate("C19 setclientid-confirm-never-executes-after-delay v=4.0",
+			"after the old client record became idle, the delayed SETCLIENTID_CONFIRM is still not executed", nil)
+		return
+	}
+	// The new record replaces the old one: every open-owner, open and
+	// lock of the client is gone.
+	for _, slots := range v.held {
+		for sl, lf := range slots {
+			if lf.lo.c == c {
+				delete(slots, sl)
+			}
+		}
+	}
+	c.id, c.verifier = newID, verifier
+	for j, old := range c.owners {
+		for _, of := range old.files {
+			v.retire(of.fh, of.stateid)
+		}
+		n := &oo40{c: c, name: old.name, files: map[string]*of40{}}
+		for k := 0; k < 2; k++ {
+			n.lockOwners = append(n.lockOwners, &lo40{c: c, name: old.lockOwners[k].name})
+		}
+		c.owners[j] = n
+	}
+	v.logf("c%d continues as clientid=%x", c.idx, c.id)
+	// Confirming again is idempotent.
+	before = v.fingerprint()
+	if v.abort {
+		return
+	}
+	d, ok := v.send(confirm, "RETRANSMIT SETCLIENTID_CONFIRM (executed)")
+	if !ok {
+		return
+	}
+	v.dups++
+	after = v.fingerprint()
+	if v.abort {
+		return
+	}
+	if d.res.Status != nfsv4.NFS4_OK || before != after {
+		v.violate(fmt.Sprintf("C19 setclientid-confirm-replay-differs v=4.0 got=%s", statusName(d.res.Status)),
+			"retransmission of an executed SETCLIENTID_CONFIRM was not answered NFS4_OK without side effects",
+			map[string]any{"before": before, "after": after})
 	}
 }
